@@ -498,3 +498,9 @@ func StrOrd(name string) string {
 
 // IntF is an integer-valued float32 of magnitude <= 2^16 (exact integer abstraction in the engine).
 func IntF(name string) float32 { return float32(intIn(name)) }
+
+// Settle waits until every other goroutine has run as far as it can (engine: exact; natively: a short sleep).
+func Settle() { time.Sleep(30 * time.Millisecond) }
+
+// Unwind raises the engine's loop unwinding bound (no effect natively).
+func Unwind(n int) {}
